@@ -145,6 +145,20 @@ theorem setDigits_derivDigits (p : Digits × Digits) (q : QObj) :
   unfold derivDigits
   cases (setDigits p q).self.antimask <;> rfl
 
+/-- the clipping of a digits entry depends on THAT entry's reference only: with references
+    (<string>, <number>) the derivative's digits are used as given, however large -/
+theorem validateDigits_entrywise (p : Digits × Digits) (r0 r0' r1 : Bool) :
+    (validateDigits p (r0, r1)).2 = (validateDigits p (r0', r1)).2 ∧
+    (validateDigits p (r1, r0)).1 = (validateDigits p (r1, r0')).1 ∧
+    ∀ t, (validateDigits (p.1, .num t) (r0, true)).2 = .num t := by
+  refine ⟨rfl, rfl, fun t => rfl⟩
+
+/-- deciding the clipping once from the first reference (seeded change C11z-b) clips 18 digits requested for the
+    derivatives relative to a number down to 15.654 -/
+theorem validateDigits_hoisted_counterexample :
+    (validateDigits (.num 8000, .num 18000) (false, true)).2 = .num 18000 ∧
+    clampDigit false (.num 18000) = .num 15654 := by decide
+
 /-- so a pair whose entries are both exact settings makes the round trip exact, and with
     `('single', 'double')`-like pairs the derivatives are lossless whatever happens to the object's values
     (`FloatExact P .double` always holds) -/
